@@ -126,7 +126,10 @@ def show(n):
         return n["text"]
     if k == "MethodCall":
         tf = norm(n["turbofish"]) if n.get("turbofish") else ""
-        return "%s.%s%s(%s)" % (show(n["receiver"]), n["method"], tf, ", ".join(show(a) for a in n["args"]))
+        rc = show(n["receiver"])
+        if is_node(n["receiver"]) and n["receiver"]["k"] in ("Range", "Ref", "Unary", "Closure", "If", "Match"):
+            rc = "(" + rc + ")"
+        return "%s.%s%s(%s)" % (rc, n["method"], tf, ", ".join(show(a) for a in n["args"]))
     if k == "Call":
         return "%s(%s)" % (show(n["func"]), ", ".join(show(a) for a in n["args"]))
     if k == "Field":
